@@ -37,6 +37,7 @@ def check(ck):
     r15_6(ck)
     r15_7(ck)
     r15_9(ck)
+    r15_10(ck)
 
 
 def r15_1(ck):
@@ -466,3 +467,49 @@ def r15_9(ck, rule='R15.9'):
                        A.unparse(v), s2)
     ck.require(hit, rule, f, 'self.emit', 'leaf emit flag is assigned',
                'the leaf section no longer sets self.emit')
+
+
+def r15_10(ck):
+    ck.rule('R15.10', 'sub-schemas reach every level and the composite '
+            'state keeps every port: _apply_subschemas applies the own '
+            'sub-schema AND descends into every child; dictionary-valued '
+            'initial states of several ports are merged (C06 R06.2); each '
+            'build distributes the current get_schema() of the process '
+            '(C16 R16.8)')
+    f = ck.fn('Store._apply_subschemas', 'core.store')
+    cfg = cfg_of(f.node)
+    rec = [c for c in A.calls_in(f.node, '_apply_subschemas')
+           if not A.is_name(A.call_receiver(c), 'self')]
+    ok = False
+    for c in rec:
+        lp = c
+        while lp is not None and not isinstance(lp, ast.For):
+            lp = getattr(lp, '_parent', None)
+        if lp is None:
+            continue
+        g = cfg.guards(cfg.node(lp))
+        ok = not g and 'self.inner' in A.unparse(lp.iter)
+        ck.require(ok, 'R15.10', f, lp,
+                   'the descent into the children is unconditional',
+                   'the children are only visited under %s: a glob '
+                   'declaration nested below another glob node no longer '
+                   'reaches children created later' % sorted(g), lp)
+    ck.require(bool(rec), 'R15.10', f, f.node.name,
+               '_apply_subschemas descends into the children', None)
+    own = [c for c in A.calls_in(f.node, '_apply_subschema')
+           if A.is_name(A.call_receiver(c), 'self')]
+    ck.require(bool(own), 'R15.10', f, f.node.name,
+               'a node with a sub-schema applies it to its children', None)
+    from . import c06, c16
+    c06.r06_2(ck)
+    c16.r16_8(ck)
+    OLD, NEW = ('R06.2', 'R16.8'), 'R15.10'
+
+    for o in ck.obligations:
+        if o['rule'] in OLD:
+            o['rule'] = NEW
+    for v in ck.violations:
+        if v.rule in OLD:
+            v.rule = NEW
+    for r in OLD:
+        ck.rules.pop(r, None)
